@@ -87,9 +87,15 @@ pub fn probe(ctx: &Ctx, needle: &[u8], hay: &[u8], table: &[u8; 256], calls: &mu
     let rk = Ranker::new(subs::RK_TABLE, table, needle);
     let frk = chk!("FinderBuilder::build_forward_with_ranker", FinderBuilder::new().build_forward_with_ranker(&rk, needle));
     chk!("Finder::find", f.find(hay));
+    // reuse of one finder: the second, third ... call must not allocate either (lazily built helpers)
+    chk!("Finder::find (2nd call on the same finder)", f.find(hay));
+    chk!("Finder::find (3rd call on the same finder, 40-byte prefix)", f.find(&hay[..hay.len().min(40)]));
+    chk!("Finder::find (4th call on the same finder)", f.find(hay));
     chk!("Finder(Prefilter::None)::find", fnone.find(hay));
     chk!("Finder(custom ranker)::find", frk.find(hay));
     chk!("FinderRev::rfind", r.rfind(hay));
+    chk!("FinderRev::rfind (2nd call on the same finder)", r.rfind(hay));
+    chk!("FinderRev::rfind (3rd call on the same finder, 40-byte prefix)", r.rfind(&hay[..hay.len().min(40)]));
     chk!("memmem::find", memmem::find(hay, needle));
     chk!("memmem::rfind", memmem::rfind(hay, needle));
     chk!("Finder::find_iter (complete traversal)", {
